@@ -423,8 +423,10 @@ def disambiguate_matching(rain_intervals, jump_intervals):
         for (rain_start, _), (jump_start, _) in zip(rain_intervals, jump_intervals)
     ]
     duration_differences = {
+        # A jump slice (start, stop) spans stop - start head values,
+        # that is, stop - start - 1 time steps
         (rain_start, jump_start): float(
-            (rain_stop - rain_start) - (jump_stop - jump_start)
+            (rain_stop - rain_start) - (jump_stop - jump_start - 1)
         )
         for (rain_start, rain_stop), (jump_start, jump_stop) in zip(
             rain_intervals, jump_intervals
